@@ -15,6 +15,7 @@ way it fails.  What holds is `impl_eq_spec_partial` below, under the decidable h
 exclude exactly those ways (`Model/AuthZoneDev.lean`), and `aa_iff_not_referral` for the AA bit.
 -/
 import HickoryVerif.Lemmas.AuthZoneChain
+import HickoryVerif.Lemmas.AuthZoneAdd
 
 namespace HickoryVerif.C10
 open HickoryVerif HickoryVerif.AuthZone HickoryVerif.AuthZone.Dev HickoryVerif.Spec.Rfc1034
@@ -573,5 +574,23 @@ theorem never_data_below_cut {z : Zone} {o : LName} {q : Query} (hwf : zoneWF z 
   · have hzo : zoneOf o q.name = false := by
       cases h : zoneOf o q.name <;> simp_all
     simp [hzo] at hrr
+
+/-! ### additional-section processing terminates -/
+
+/--
+**The `while` loop of `additional_search` — which has no counter in the code — ends by itself**:
+for every zone, every start name taken from an rdata of the zone (that is where `maybe_next_name`
+and the CNAME arm take it from) and every state of `names` / `additionals`, any amount of fuel
+beyond `addFuel z` (= number of names embedded in the zone's rdatas + 2) gives the same result.
+The names looked up are pairwise distinct rdata names of the zone, so there are at most
+`(targets z).length` iterations that do a lookup.
+-/
+theorem addLoop_fuel_irrelevant (z : Zone) (qt : Nat) (names : List LName) (search : LName)
+    (adds : List RRset) (hs : search ∈ targets z) (fuel : Nat) (h : addFuel z ≤ fuel) :
+    addLoop z qt fuel names search adds = addLoop z qt (addFuel z) names search adds := by
+  apply addLoop_stable z qt (addFuel z) names search adds hs _ fuel h
+  have := remaining_le z names
+  unfold addFuel
+  omega
 
 end HickoryVerif.C10
